@@ -66,5 +66,6 @@ func verifResultOwned(v any) bool
 func verifTraceLeaks(prefix string) int
 func verifTraceClass(class string)
 func verifBigHexDigits() []byte
+func verifDecimalOf(hex []byte, declen int) string
 func verifIteI64(c bool, a, b int64) int64
 func verifUFv(name string, n int, bytes []byte, nums ...uint64) []byte
